@@ -34,6 +34,7 @@ structure St where
   m : State
   spec : C21Spec.S
   lastRep : String → Int
+  held : List String := []
 
 def initSt : St := { cfg := sanitize (rawOf []), m := init vclockStart, spec := {}, lastRep := fun _ => 0 }
 
@@ -61,22 +62,26 @@ def step (st : St) (tok : List String) (_line : String) (impl : Option String) :
     match n.toNat? with
     | some d => ({ st with m := (Announce.step st.cfg st.m (.adv d)).1 }, "ok", "ok")
     | none => (st, "bad-op", "ok")
+  | ["hold", c] => ({ st with held := c :: st.held }, "ok", "ok")
   | ["ann", p, c, mt, flags, ver] =>
     let now := st.m.now
-    let a := annOf st.cfg now p c mt flags ver
+    let itoks0 := (impl.getD "").splitOn " "
+    -- a held chunk may have expired meanwhile: for held chunks the implementation's answer is taken as a hint
+    let kr := if st.held.contains c then kvStr itoks0 "kr" "0" == "1" else true
+    let a := { annOf st.cfg now p c mt flags ver with keepsReadable := kr }
     let r := announce st.cfg st.m a
     let ps := r.1.peers p
     let itoks := (impl.getD "").splitOn " "
     let accepted := r.2 == .accepted
     let lk := match ps.lock with | some u => toString (u - now) | none => "-"
-    let mc := if accepted then "1" else kvStr itoks "mc" "0"
+    let mc := if accepted && kr then "1" else kvStr itoks "mc" "0"
     let pc := if accepted && a.hasEndpoint then "1" else kvStr itoks "pc" "0"
     -- whether the scheduled fetch is still pending after the immediate dispatch attempt depends on the
     -- fetch retry budget (C24), so it is echoed, not predicted; `chg` records that it was touched
     let pf := kvStr itoks "pf" "0"
-    let ks := if accepted then "3" else kvStr itoks "ks" "0"
+    let ks := if accepted && kr then "3" else kvStr itoks "ks" "0"
     let chg := if accepted then kvStr itoks "chg" "1111" else "0000"
-    let out := s!"f={factBits a} rep={ps.rep} h={ps.hist.length} fl={ps.fails.length} lk={lk} mc={mc} pc={pc} pf={pf} ks={ks} chg={chg}"
+    let out := s!"f={factBits a} rep={ps.rep} h={ps.hist.length} fl={ps.fails.length} lk={lk} mc={mc} pc={pc} pf={pf} ks={ks} chg={chg} kr={b kr}"
     -- monitor: the specification judging what the implementation did
     let implOk := match impl with | some il => il.startsWith "f=" | none => false
     let (spec', verdict, rep') := match implOk with
